@@ -124,7 +124,7 @@ def main():
     known_ob = {}
     for k in known.get("findings", []):
         if k.get("property") == prop:
-            known_ob[k["obligation"]] = k
+            known_ob[k.get("obligation") or k.get("obligation_prefix")] = k
     ridx = 0
     for r in results:
         for key, finfo in (r.get("functions") or {}).items():
@@ -263,8 +263,9 @@ def main():
     # reported (KNOWN-FINDING) and left out of the obligation count, so that `discharged == obligations` keeps meaning
     # "everything claimed was discharged"
     known_obls = {k.get("obligation") for k, _ in status["known"]}
+    known_pres = [k.get("obligation_prefix") for k, _ in status["known"] if k.get("obligation_prefix")]
     refuted_known = {o["name"] for r in results for o in r["obligations"]
-                     if o["status"] != "discharged" and o["name"] in known_obls}
+                     if o["status"] != "discharged" and (o["name"] in known_obls or any(o["name"].startswith(p_) for p_ in known_pres))}
     n_ob -= len(refuted_known)
 
     wall = time.time() - t0
